@@ -171,7 +171,12 @@ def jobs_for(prop, tier):
         # queue-heavy subjects: four waiting requests on one side, three priority values (a middle position among equals exists)
         for sp in (S("rps", 1, live=1, live_p=4, live_g=1, prios=[0, 1, 2]), S("rps", 1, live=1, live_p=1, live_g=4, prios=[0, 1, 2]),
                    S("rpfs", 1, live=1, live_p=4, live_g=1, prios=[0, 1, 2], drain=1, age_cap=0.5, notime=1),
-                   S("rpfs", 1, live=1, live_p=1, live_g=4, prios=[0, 1, 2], drain=1, age_cap=0.5, notime=1)):
+                   S("rpfs", 1, live=1, live_p=1, live_g=4, prios=[0, 1, 2], drain=1, age_cap=0.5, notime=1),
+                   # priorities on the stores behind a fleet and a slotted conveyor (the edge API never passes one, the store API does)
+                   S("fleet", 1, live=1, live_p=1, live_g=3, prios=[0, 1, 2], delay=1, transit=0.5, drain=1, age_cap=2, grid=0.5, notime=1),
+                   S("fleet", 1, live=1, live_p=3, live_g=1, prios=[0, 1, 2], delay=1, transit=0.5, drain=1, age_cap=2, grid=0.5, notime=1),
+                   S("sconv", 2, live=1, live_p=1, live_g=3, prios=[0, 1, 2], delay=1, acc=1, drain=1, age_cap=3, grid=1, notime=1),
+                   S("sconv", 2, live=1, live_p=3, live_g=1, prios=[0, 1, 2], delay=1, acc=1, drain=1, age_cap=3, grid=1, notime=1)):
             jobs.append({"engine": "S", "prop": prop, "label": sp.label() + "#" + _h(sp), "spec": sp.to_json(), "caps": caps})
         jobs.append({"engine": "PRS", "prop": prop, "label": "prs(cap=1,live=4)", "cap": 1, "live": 4, "prios": [0, 1, 2]})
         for cap in ((1, 2) if q else (1, 2, 3)):
